@@ -142,11 +142,17 @@ def run(rep, tier, seed, replay_file=None):
     t0 = time.time()
     jobs = [("OnceImpl", "OnceImpl", "OnceImpl_small.cfg" if quick else "OnceImpl_MC.cfg", dict(workers=2 if quick else 4, timeout=1500)),
             ("PoolImpl", "PoolImpl", "PoolImpl_small.cfg" if quick else "PoolImpl_MC.cfg", dict(workers=2 if quick else 4, timeout=1500, heap="6g")),
+            ("PoolImpl-config", "PoolImpl", "PoolImpl_cfg.cfg", dict(workers=1, timeout=900)),
             ("OnceImpl-asis-rest", "OnceImpl", "OnceImpl_asis_small.cfg" if quick else "OnceImpl_asis_rest.cfg", dict(workers=2, timeout=1500))]
+    nmc = len(jobs)
+    if not quick:
+        # coverage sanity on the small configs: no action of the interleaving models is never taken
+        jobs += [("cov-" + c, m, c, dict(workers=1, timeout=900, coverage=True))
+                 for m, c in (("OnceImpl", "OnceImpl_small.cfg"), ("PoolImpl", "PoolImpl_small.cfg"), ("PoolImpl", "PoolImpl_cfg.cfg"))]
     jobs += [("%s/%s" % (m, c), m, c, dict(workers=1, timeout=600)) for m, c, _, _ in IMPL_EXPECTED]
     jobs = [(a, b, c, dict(kw, workers=_w(kw["workers"]))) for a, b, c, kw in jobs]
     res = L.run_tlc_parallel(jobs, max_parallel=_w(12 if quick else 8))
-    for name, module, cfg, _ in jobs[:3]:
+    for name, module, cfg, _ in jobs[:nmc]:
         r = res[name]
         rep.add_tlc("%s/%s" % (module, cfg), r, "exhaustive interleavings; invariants and temporal properties of the cfg")
         if not r.ok:
@@ -155,6 +161,15 @@ def run(rep, tier, seed, replay_file=None):
         r = res["%s/%s" % (m, c)]
         rep.add_tlc("%s/%s" % (m, c), r, "expected violation of %s: %s" % (inv, what))
         rep.self_test("%s/%s violates %s (non-vacuity)" % (m, c, inv), r.violated == inv, str(r.brief()))
+    if not quick:
+        for module in ("OnceImpl", "PoolImpl"):
+            taken, seen = set(), set()
+            for name, m, c, _ in jobs:
+                if name.startswith("cov-") and m == module:
+                    rep.add_tlc("%s/%s -coverage" % (m, c), res[name], "action coverage")
+                    seen |= set(res[name].coverage)
+                    taken |= {a for a, (_, n) in res[name].coverage.items() if n > 0}
+            rep.self_test("every action of %s is taken in its small configs" % module, bool(seen) and seen == taken, str(sorted(seen - taken)))
     phases["models"] = round(time.time() - t0, 1)
 
     # ---- 2./3. behaviours of the sequential spec, replayed on the real types
@@ -196,7 +211,7 @@ def run(rep, tier, seed, replay_file=None):
     t0 = time.time()
     n = 60 if quick else 700
     shards = _w(8 if quick else 12)
-    kinds = ["map", "atomic", "sync", "once", "casduel", "onceduel"]
+    kinds = ["map", "atomic", "sync", "once", "casduel", "onceduel", "rangeduel", "mapduel"]
     hists = {k: [] for k in kinds}
     trials = {}
     with cf.ThreadPoolExecutor(max_workers=shards) as ex:
